@@ -227,7 +227,8 @@ CLAIMED["C05"] = dict(
          "Circuit::validate, have input_gates equal to the sizes of the parameter types (one party per element for a single "
          "array parameter), 161 + size(return type) outputs, and return Val.encode of the value the source semantics compute; "
          "a second stream uses types of 0 bits (two recorded findings); every corpus program that compiles must validate as "
-         "SSA and as register circuit; a fourth stream compiles programs whose array sizes, trip counts and parties come from "
+         "SSA and as register circuit; mutants of generated programs that check.rs accepts must compile without a panic to "
+         "the shape of the types check.rs itself reports; a fourth stream compiles programs whose array sizes, trip counts and parties come from "
          "constants (external values, constant expressions, [x; N], [7; N] with a number without a suffix in a typed position) "
          "with generated constant values: accepted, no compiler panic, valid, input parties and output width as the types with "
          "the sizes filled in require.",
@@ -283,7 +284,7 @@ CLAIMED["C17"] = dict(
          "C17_refutable_loop_pattern, C17_unknown_function, C17_argument_count, C17_assign_unbound, C17_no_arm: in the source "
          "semantics a program that breaks one of these static rules has no meaning - evaluation ends in Err.stuck, neither a "
          "value nor a panic - so accepting it would compile something the specification does not define. C17_typed_never_stuck / "
-         "C17_typed_result_type (Props/C17Typed.lean): a typing judgement for which the converse holds - Bit.fnTyped runs the "
+         "C17_typed_result_type / C17_progTyped_sound (Props/C17Typed.lean): a typing judgement for which the converse holds - Bit.fnTyped runs the "
          "compiler model once, on all-zero wires, and asks for wires of the declared return type; a function it accepts, called on "
          "ANY argument values of its parameter types with any fuel, never gets stuck and returns a value of the declared type "
          "(static_program, Proofs/BitStatic.lean: whether the model covers a body, and its result type, depend only on the types "
